@@ -34,6 +34,9 @@ def setup_repo_path():
         raise MachineryFailure("d42 imported from %s, expected %s" % (here, want))
     # make sure every visitor override is installed
     import d42.generation, d42.validation, d42.substitution, d42.representation  # noqa
+    # schemas are built through every public construction route in turn (harness/absmap.py)
+    from . import absmap
+    absmap.enable_routes(os.environ.get("VERIF_ROUTES", "1") != "0")
     return repo
 
 
